@@ -123,7 +123,7 @@ def schedules(rem, cur, k):
 
 class C12(Prop):
     id = 'C12'
-    budgets = {'quick': 2000, 'thorough': 30000}
+    budgets = {'quick': 2500, 'thorough': 30000}
     time_limit = {'quick': 45, 'thorough': 540}
     rule = ('1-4 real threads (mostly 2-3), each driving its own ThreadsafeForwardingResult through 0-3 tests (arbitrary outcomes, explicit/wall '
             'times, run-level and test-level tags, also start-less / unfinished tests) and control calls (startTestRun, stopTestRun, stop, done, '
